@@ -7,6 +7,7 @@ CONSTANTS
   Dev_InternalActivityKeepsIdleFlag = FALSE
   Dev_IdleIgnoresMailbox = FALSE
   Dev_CancelBypassesLock = TRUE
+  Dev_SendSkipsLockWhenLoaded = FALSE
   WithCancel = TRUE
 INIT Init
 NEXT Next
